@@ -5,11 +5,14 @@ From Muscle Require Import Pulse.PulseModel Pulse.PulseInv Pulse.PulseForest Pul
      Pulse.PulseSweep Pulse.PulseReach Pulse.PulseMin Pulse.PulseExact Pulse.PulseFuel Pulse.PulseDepth.
 Import ListNotations.
 
-(* what every operation leaves alone: a node that is on a scheduled list afterwards was there before, below the same
-   parent; no object comes to life *)
+(* what every operation leaves alone: a node that is on a scheduled or unscheduled list afterwards was on the same list
+   before, below the same parent; no object comes to life *)
 Definition cop_mono (m m' : nmap) : Prop :=
-  (forall z, cur (m' z) = LSched -> cur (m z) = LSched /\ parent (m' z) = parent (m z)) /\
+  (forall z, su (cur (m' z)) -> cur (m z) = cur (m' z) /\ parent (m' z) = parent (m z)) /\
   (forall z, alive (m' z) = true -> alive (m z) = true).
+
+Lemma cop_mono_sched m m' z : cop_mono m m' -> cur (m' z) = LSched -> cur (m z) = LSched /\ parent (m' z) = parent (m z).
+Proof. intros [H _] Hz. destruct (H z (or_introl Hz)) as [Hc Hp]. split; congruence. Qed.
 
 Lemma cop_mono_refl m : cop_mono m m.
 Proof. split; auto. Qed.
@@ -17,7 +20,7 @@ Proof. split; auto. Qed.
 Lemma cop_mono_trans m1 m2 m3 : cop_mono m1 m2 -> cop_mono m2 m3 -> cop_mono m1 m3.
 Proof.
   intros [H1 A1] [H2 A2]. split; [|auto].
-  intros z Hz. destruct (H2 z Hz) as [Hc Hp]. destruct (H1 z Hc) as [Hc' Hp']. split; congruence.
+  intros z Hz. destruct (H2 z Hz) as [Hc Hp]. rewrite <- Hc in Hz. destruct (H1 z Hz) as [Hc' Hp']. split; congruence.
 Qed.
 
 Lemma resched_cop_mono f m p c w m' :
@@ -30,8 +33,8 @@ Proof.
   destruct (resched_cur f m p c w m' Hpar Hpc Hns H) as [Hcc Hco].
   split.
   - intros z Hz. destruct (Hsc z) as (Hp & _). split; [|assumption].
-    destruct (Nat.eq_dec z c) as [->|Hzc]; [rewrite Hcc in Hz; destruct Hw; congruence|].
-    destruct (Hco z Hzc) as [He|[_ He]]; congruence.
+    destruct (Nat.eq_dec z c) as [->|Hzc]; [rewrite Hcc in Hz; exfalso; eapply rn_not_su; eauto|].
+    destruct (Hco z Hzc) as [He|[_ He]]; [congruence|]. rewrite He in Hz. destruct Hz; discriminate.
   - intros z Hz. destruct (Hsc z) as (_&_&_&_&Ha&_). congruence.
 Qed.
 
@@ -77,8 +80,8 @@ Proof.
   fold (orphan (unlink m p c LNone) c) in H. set (m2 := orphan (unlink m p c LNone) c) in *.
   assert (H12 : cop_mono (unlink m p c LNone) m2).
   { split.
-    - intros z Hz. unfold m2 in *. rewrite orphan_cur in Hz. split; [assumption|].
-      destruct (Nat.eq_dec z c) as [->|Hzc]; [rewrite unlink_cur_c in Hz by assumption; discriminate|].
+    - intros z Hz. unfold m2 in *. rewrite orphan_cur in *. split; [reflexivity|].
+      destruct (Nat.eq_dec z c) as [->|Hzc]; [rewrite unlink_cur_c in Hz by assumption; destruct Hz; discriminate|].
       now rewrite orphan_parent_o.
     - intros z Hz. unfold m2 in Hz. now rewrite orphan_alive in Hz. }
   destruct (opt_nat_eqb (hd_error (ls (m p))) c).
@@ -141,9 +144,9 @@ Proof.
     pose proof (resched_scalars f (adopt m1 p c) p c LRecalc m' (adopt_parent_c m1 p c) Hpc Hns Hr) as Hsc.
     destruct (resched_cur f (adopt m1 p c) p c LRecalc m' (adopt_parent_c m1 p c) Hpc Hns Hr) as [Hcur Hco].
     split.
-    + intros z Hz. destruct (Nat.eq_dec z c) as [->|Hzc]; [congruence|].
+    + intros z Hz. destruct (Nat.eq_dec z c) as [->|Hzc]; [rewrite Hcur in Hz; destruct Hz; discriminate|].
       destruct (Hsc z) as (Hp & _). rewrite adopt_parent_o in Hp by assumption.
-      destruct (Hco z Hzc) as [He|[_ He]]; [|congruence]. rewrite adopt_cur in He. split; congruence.
+      destruct (Hco z Hzc) as [He|[_ He]]; [|rewrite He in Hz; destruct Hz; discriminate]. rewrite adopt_cur in He. split; congruence.
     + intros z Hz. destruct (Hsc z) as (_&_&_&_&Ha'&_). rewrite adopt_alive in Ha'. congruence.
   - destruct (alive (m p) && alive (m c)); [|inversion H; subst; apply cop_mono_refl].
     destruct (parent (m c)) as [q|] eqn:Hq.
@@ -205,8 +208,8 @@ Qed.
 Lemma cnt_decrease N m m' c :
   cop_mono m m' -> c < N -> cur (m c) = LSched -> cur (m' c) <> LSched -> cnt N m' < cnt N m.
 Proof.
-  intros [Hm _] Hc H1 H2. unfold cnt. apply filter_count_lt with (c := c).
-  - intros y Hy. unfold is_sched in *. apply lst_eqb_eq in Hy. apply lst_eqb_eq. now destruct (Hm y Hy).
+  intros Hm Hc H1 H2. unfold cnt. apply filter_count_lt with (c := c).
+  - intros y Hy. unfold is_sched in *. apply lst_eqb_eq in Hy. apply lst_eqb_eq. now destruct (cop_mono_sched _ _ y Hm Hy).
   - apply in_seq. lia.
   - unfold is_sched. rewrite H1. reflexivity.
   - unfold is_sched. apply lst_eqb_neq. assumption.
@@ -222,8 +225,8 @@ Fixpoint J (F : list nat) (m : nmap) : Prop :=
 
 Lemma J_mono F m m' : cop_mono m m' -> J F m -> J F m'.
 Proof.
-  intros [Hm _]. induction F as [|z rest IH]; simpl; [auto|]. intros [H1 H2]. split; [|auto].
-  intro Hz. destruct (Hm z Hz) as [Hc Hp]. rewrite Hp. auto.
+  intros Hm. induction F as [|z rest IH]; simpl; [auto|]. intros [H1 H2]. split; [|auto].
+  intro Hz. destruct (cop_mono_sched _ _ z Hm Hz) as [Hc Hp]. rewrite Hp. auto.
 Qed.
 
 Lemma J_in F m c :
